@@ -188,6 +188,7 @@ type Exec struct {
 	steer      *term.T // preferred region for the model of the next violated assertion (optional)
 	steerVal   *term.T // term whose model value is reported with that assertion
 	steerNote  string
+	inGos      bool // service goroutines are running (no nested runs)
 	onces     map[*Value]bool
 	lastPanic string
 	NowBase   int64
